@@ -682,7 +682,10 @@ macro_rules! boolean_array_impl {
                 type Output = Self;
 
                 fn not(self) -> Self::Output {
-                    Self(self.0.not())
+                    let mut result = Self(self.0.not());
+                    // `BitArray::not` also flips the padding bits; they must stay zero.
+                    result.0[$bits..].fill(false);
+                    result
                 }
             }
 
